@@ -44,16 +44,89 @@ def discover():
     return out
 
 
+# ---- size thresholds written as LITERALS inside functions --------------------------------------------
+# `if n > 2**24:` / `block = 2**23 // row_bytes` never shows up as a module attribute.  Integer literals
+# that are powers of two between 2**16 and 2**30 (2**31, 2**32, 2**63, 2**64 are integer-range constants
+# and excluded by the bounds) in functions of the library modules under test are such thresholds with
+# overwhelming likelihood; they are replaced in the function's code object (co_consts) for the
+# duration of a run.  At the pinned commit no function of these modules has one.
+_LIT_MODULES = ("quantem.diffractive_imaging", "quantem.core.io", "quantem.core.datastructures",
+                "quantem.core.utils", "quantem.core.config")
+_LIT_SMALL = [64, 1000, 4099, 20011]
+
+
+def _eligible(c):
+    return type(c) is int and (1 << 16) <= c <= (1 << 30) and c & (c - 1) == 0
+
+
+def _code_literals(code, out):
+    import types
+
+    for c in code.co_consts:
+        if isinstance(c, types.CodeType):
+            _code_literals(c, out)
+        elif _eligible(c):
+            out.add(c)
+
+
+def _subst(code, mapping):
+    import types
+
+    new = []
+    for c in code.co_consts:
+        if isinstance(c, types.CodeType):
+            new.append(_subst(c, mapping))
+        elif _eligible(c) and c in mapping:
+            new.append(mapping[c])
+        else:
+            new.append(c)
+    return code.replace(co_consts=tuple(new))
+
+
+def discover_literals():
+    import types
+
+    out, seen = [], set()
+    for mname in sorted(sys.modules):
+        if not mname.startswith(_LIT_MODULES):
+            continue
+        mod = sys.modules[mname]
+        if mod is None:
+            continue
+        for name, obj in sorted(vars(mod).items(), key=lambda kv: kv[0]):
+            fns = []
+            if isinstance(obj, types.FunctionType) and obj.__module__ == mname:
+                fns.append((name, obj))
+            elif isinstance(obj, type) and obj.__module__ == mname:
+                for n2, o2 in sorted(vars(obj).items(), key=lambda kv: kv[0]):
+                    f = o2.__func__ if isinstance(o2, (staticmethod, classmethod)) else (
+                        o2.fget if isinstance(o2, property) else o2)
+                    if isinstance(f, types.FunctionType):
+                        fns.append((f"{name}.{n2}", f))
+            for qn, f in fns:
+                if id(f) in seen:
+                    continue
+                seen.add(id(f))
+                lits = set()
+                _code_literals(f.__code__, lits)
+                if lits:
+                    out.append((f"{mname}:{qn}", f, sorted(lits)))
+    return out
+
+
 class Knobs:
     def __init__(self):
         self.found = None
+        self.lits = None
         self._nmod = -1
         self.saved = []
+        self.saved_code = []
 
     def apply(self, run_seed):
         nmod = sum(1 for m in sys.modules if m.startswith("quantem"))
         if self.found is None or nmod != self._nmod:
             self.found = discover()
+            self.lits = discover_literals()
             self._nmod = nmod
         applied = {}
         by_name = {}
@@ -69,6 +142,17 @@ class Knobs:
             self.saved.append((mod, name, val))
             setattr(mod, name, new)
             applied[f"{mname}.{name}"] = new
+        for qn, f, lits in self.lits or ():
+            mapping = {}
+            for c in lits:
+                h = derive(run_seed, "literal", qn, c)
+                if h % 4:
+                    mapping[c] = _LIT_SMALL[(h >> 8) % len(_LIT_SMALL)]
+            if mapping:
+                self.saved_code.append((f, f.__code__))
+                f.__code__ = _subst(f.__code__, mapping)
+            for c in lits:
+                applied[f"{qn}#literal{c}"] = mapping.get(c, c)
         return applied
 
     def values_for(self, run_seed):
@@ -83,6 +167,9 @@ class Knobs:
         for mod, name, val in self.saved:
             setattr(mod, name, val)
         self.saved = []
+        for f, code in self.saved_code:
+            f.__code__ = code
+        self.saved_code = []
 
 
 KNOBS = Knobs()
